@@ -80,6 +80,22 @@ func (c *Ctx) rootTables() map[string][]core.TableEntry {
 			out[gl.Name()] = ents
 		}
 	}
+	// an array of structs with one function-typed field per reifier: one table per field
+	for k, ents := range c.G.FieldTables {
+		gl := k.Global
+		if gl.Pkg == nil || core.Rel(gl.Pkg.Pkg.Path()) != "" {
+			continue
+		}
+		name := fmt.Sprintf("%s[].#%d", gl.Name(), k.Field)
+		if pt, ok := gl.Type().Underlying().(*types.Pointer); ok {
+			if at, ok := pt.Elem().Underlying().(*types.Array); ok {
+				if st, ok := at.Elem().Underlying().(*types.Struct); ok && k.Field < st.NumFields() {
+					name = gl.Name() + "[]." + st.Field(k.Field).Name()
+				}
+			}
+		}
+		out[name] = ents
+	}
 	return out
 }
 
